@@ -47,6 +47,10 @@ MODELLED_NOT_VERIFIED = ['numpy (astype, fancy indexing, eye, maximum, isin)', '
 
 DTYPES = [None, None, None, None, 'uint8', 'uint16', 'uint32', 'uint64', 'int8', 'int16', 'int32', 'int64', 'float32',
           'float64', 'bool']
+# the documented defaults of the read options (identical in the docstrings of all five entry points)
+DEFAULTS = {'combine': False, 'relabel': False, 'skip': False, 'rescale': True, 'assert_missing': False}
+KWNAME = {'combine': 'combine_segments', 'relabel': 'relabel', 'skip': 'skip_overlap_checks', 'rescale': 'rescale_fractional',
+          'assert_missing': 'assert_missing_frames_are_empty'}
 DTYPE_MAX = {'uint8': 255, 'uint16': 65535, 'uint32': 2 ** 32 - 1, 'uint64': 2 ** 64 - 1, 'int8': 127, 'int16': 32767,
              'int32': 2 ** 31 - 1, 'int64': 2 ** 63 - 1, 'float32': 2 ** 127, 'float64': 2 ** 1023, 'bool': 1}
 
@@ -410,6 +414,9 @@ def _requests(ctx, obj):
                 if r.random() < 0.3:
                     q['planes'].insert(r.randint(0, len(q['planes'])), 'absent')
                     q['assert_missing'] = r.random() < 0.5
+    for q in reqs:
+        # half of the options that have their default value are left out of the call
+        q['omit'] = [k for k in DEFAULTS if q[k] == DEFAULTS[k] and r.random() < 0.5] + (['segs'] if r.random() < 0.5 else [])
     return reqs
 
 
@@ -533,6 +540,15 @@ def _run_read(ctx, obj, rq, frames, info):
               relabel=rq['relabel'], rescale_fractional=rq['rescale'], skip_overlap_checks=rq['skip'])
     if rq['dtype'] is not None:
         kw['dtype'] = np.dtype(rq['dtype'])
+    am = {'assert_missing_frames_are_empty': rq['assert_missing']}
+    # options whose requested value is the documented default are LEFT OUT of the call for rq['omit'] (the documented
+    # defaults are the same for every entry point: DEFAULTS)
+    for opt in rq.get('omit', []):
+        if opt in DEFAULTS and rq[opt] == DEFAULTS[opt]:
+            kw.pop(KWNAME[opt], None)
+            am.pop(KWNAME[opt], None)
+    if rq['segs_none'] and 'segs' in rq.get('omit', []):
+        kw.pop('segment_numbers', None)
     entry = rq['entry']
     plane_masks = None
     must_refuse_missing = False
@@ -549,7 +565,7 @@ def _run_read(ctx, obj, rq, frames, info):
             else:
                 uids.append(info['uid_of_plane'][p])
                 plane_masks.append(store[p])
-        call = lambda: seg.get_pixels_by_source_instance(uids, assert_missing_frames_are_empty=rq['assert_missing'], **kw)  # noqa: E731
+        call = lambda: seg.get_pixels_by_source_instance(uids, **am, **kw)  # noqa: E731
         model_keys = uids
     elif entry == 'frame':
         nums, plane_masks = [], []
@@ -572,7 +588,7 @@ def _run_read(ctx, obj, rq, frames, info):
             use_uid = '1.2.3.4.5.6.7'
             plane_masks = [None] * len(plane_masks)
             must_refuse_missing = must_refuse_missing or not rq['assert_missing']
-        call = lambda: seg.get_pixels_by_source_frame(use_uid, nums, assert_missing_frames_are_empty=rq['assert_missing'], **kw)  # noqa: E731
+        call = lambda: seg.get_pixels_by_source_frame(use_uid, nums, **am, **kw)  # noqa: E731
         model_keys = nums
     elif entry == 'div':
         ptrs = seg.get_default_dimension_index_pointers()
@@ -605,7 +621,7 @@ def _run_read(ctx, obj, rq, frames, info):
                 else:
                     vals.append(list(info['div_of_plane'][p]))
                     plane_masks.append(store[p])
-        call = lambda: seg.get_pixels_by_dimension_index_values(vals, assert_missing_frames_are_empty=rq['assert_missing'], **kw)  # noqa: E731
+        call = lambda: seg.get_pixels_by_dimension_index_values(vals, **am, **kw)  # noqa: E731
         model_keys = [tuple(v) for v in vals]
     elif entry == 'tpm':
         if rq.get('region'):
@@ -1039,6 +1055,30 @@ def _helpers(ctx, reqs, pending):
 
 
 # ------------------------------------------------------------------------------------------ run
+def _tamper(ctx, obj):
+    """Edit in place every list the object's accessors return; afterwards the accessors must still say what was described."""
+    seg = obj['seg']
+    d = obj['d']
+    getters = {'segment_numbers': lambda: seg.segment_numbers, 'get_segment_numbers': lambda: seg.get_segment_numbers(),
+               'get_tracking_ids': lambda: seg.get_tracking_ids(),
+               'get_segment_numbers(label)': lambda: seg.get_segment_numbers(segment_label=obj['recs'][0]['label'])}
+    for name, g in getters.items():
+        st, v = _fetch(g)
+        if st == 'ok' and isinstance(v, list):
+            v.reverse()
+            if v:
+                v.pop()
+            v.append(999)
+            ctx.hist('history', 'returned list edited: ' + name)
+    st, val = _fetch(lambda: (list(seg.segment_numbers), int(seg.number_of_segments), [int(x) for x in seg.get_segment_numbers()]))
+    ctx.case(entry='independence')
+    want = (list(d['nums']), len(d['nums']), list(d['nums']))
+    if st != 'ok' or val != want:
+        ctx.fail({'obj': d, 'history': True, 'req': {'step': 'tamper'}},
+                 f'after a caller edited returned lists in place the object reports {val}, described {want}',
+                 site='search/independence')
+
+
 def _object_cases(ctx, d, reqs, pending):
     obj = _build(ctx, d)
     if 'error' in obj:
@@ -1072,6 +1112,20 @@ def _object_cases(ctx, d, reqs, pending):
         rep.append(r.choice(comb))
     rep += [r.randrange(len(reqlist)) for _ in range(3)]
     steps = [(i, q, None) for i, q in enumerate(reqlist)] + [(len(reqlist) + j, reqlist[i], i) for j, i in enumerate(rep)]
+    # values the object hands out are the caller's: at one step everything list-valued that was returned so far is edited in
+    # place (reversed, shortened, extended); the object must not notice.  Two reads with segment_numbers left to the object
+    # close the history.
+    tamper_at = r.randrange(len(reqlist) + 1)
+    entry0 = reqlist[0]['entry']
+    tail = {'entry': entry0, 'segs': list(d['nums']), 'relabel': False, 'skip': True, 'rescale': True, 'dtype': None,
+            'assert_missing': True, 'planes': reqlist[0]['planes'], 'segs_none': True, 'omit': ['segs', 'relabel']}
+    for c in (False, True):
+        q = dict(tail, combine=c)
+        if reqlist[0].get('region'):
+            q['region'] = reqlist[0]['region']
+        if reqlist[0].get('vrange'):
+            q['vrange'] = reqlist[0]['vrange']
+        steps.append((len(steps), q, None))
     snap = bytes(seg.PixelData) if d['via'] != 'lazy' and 'PixelData' in seg else None
     cache = None
     results = {}
@@ -1081,7 +1135,9 @@ def _object_cases(ctx, d, reqs, pending):
             if st0 == 'ok':
                 cache = pa
                 ctx.hist('history', 'pixel_array accessed before step %s' % ('0' if step == 0 else '>0'))
-        rq = dict(rq, step=step, touched=cache is not None)
+        if step == tamper_at:
+            _tamper(ctx, obj)
+        rq = dict(rq, step=step, touched=cache is not None, tampered=step >= tamper_at)
         res = _run_read(ctx, obj, rq, frames, info)
         # purity: reading must not modify the object
         changed = None
